@@ -161,6 +161,25 @@ class Scratch:
                     if n_timeouts[0] >= max_timeouts:
                         return "skipped", {}
             st, res = self.run_worker(script, pl, hashseed=hs, timeout=timeout, extra_env=extra_env)
+            if st != "ok" and isinstance(pl, dict) and isinstance(pl.get("jobs"), list) and len(pl["jobs"]) > 1:
+                # a batch of independent jobs died or hung as a whole (one bad job, or a runtime deadlock of the
+                # worker process - CPython forks pools from threaded processes): run its jobs one per process; the
+                # batch counts as done if every job then completes, otherwise the failure is reported with the job
+                one_timeout = min(timeout, 300)
+                outs = []
+                for k, job in enumerate(pl["jobs"]):
+                    pl1 = dict(pl)
+                    pl1["jobs"] = [job]
+                    st1, r1 = self.run_worker(script, pl1, hashseed=hs, timeout=one_timeout, extra_env=extra_env)
+                    if st1 != "ok" or not isinstance(r1, list) or len(r1) != 1:
+                        res = dict(res) if isinstance(res, dict) else {"detail": res}
+                        res.update({"failed_job_index": k, "failed_job_status": st1,
+                                    "failed_job_detail": r1 if st1 != "ok" else "unexpected result shape"})
+                        break
+                    outs.append(r1[0])
+                else:
+                    RETRIED_BATCHES.append({"script": script, "first_status": st, "jobs": len(pl["jobs"])})
+                    return "ok", outs
             if st == "timeout":
                 with lock:
                     n_timeouts[0] += 1
@@ -168,6 +187,10 @@ class Scratch:
         with ThreadPoolExecutor(jobs) as ex:
             futs = [ex.submit(one, pl, hs) for pl, hs in zip(payloads, hashseeds)]
             return [f.result() for f in futs]
+
+
+# batches of jobs that failed as a whole and completed job by job (reported in the evidence)
+RETRIED_BATCHES = []
 
 
 def _kill_group(p):
@@ -481,6 +504,8 @@ class Report:
                               "[Print Assumptions under every theorem]" % props["src"])
         cov["theorems"] = props["theorems"]
         cov["trusted_base"] = list(trusted_base)
+        if RETRIED_BATCHES:
+            cov["worker_batches_completed_job_by_job_after_a_batch_failure"] = list(RETRIED_BATCHES)
         ev = {
             "property_id": self.prop_id, "tier": self.tier, "seed": self.seed, "level": "proof",
             "coverage": cov,
